@@ -53,9 +53,8 @@ theorem digest_eq_rfc (t : Totp) (c : Nat) :
   simp only [Rfc.hotp, h1, h2, h3]
 
 /-- The previous time step: `⌊(t − X) / X⌋ = ⌊t / X⌋ − 1`. -/
-theorem prev_step_counter (secs step : Nat) (h : 0 < step) :
+theorem prev_step_counter (secs step : Nat) :
     (secs - step) / step = secs / step - 1 := by
-  have := Nat.sub_mul_div_of_le secs 1 step
   by_cases hle : step ≤ secs
   · have h2 := Nat.sub_mul_div_of_le (x := secs) (n := step) (p := 1) (by simpa using hle)
     simpa using h2
@@ -69,9 +68,9 @@ is), `verify` does not panic and accepts `chal` exactly when it is the RFC 6238 
 time step containing `secs` or of the step immediately before it. -/
 theorem verify_iff (t : Totp) (chal secs : Nat) (hstep : 0 < t.step) (hsecs : t.step ≤ secs)
     (hu64 : secs < 2 ^ 64) :
-    verify t chal secs = some (decide
-      (chal = Rfc.totp t.algo t.secret t.step t.digits.count secs ∨
-       chal = Rfc.totp t.algo t.secret t.step t.digits.count (secs - t.step))) := by
+    verify t chal secs = some
+      (chal == Rfc.totp t.algo t.secret t.step t.digits.count secs ||
+       chal == Rfc.totp t.algo t.secret t.step t.digits.count (secs - t.step)) := by
   have hc1 : 1 ≤ secs / t.step := (Nat.one_le_div_iff hstep).mpr hsecs
   have hc2 : secs / t.step < 18446744073709551616 :=
     Nat.lt_of_le_of_lt (Nat.div_le_self _ _) hu64
@@ -82,14 +81,13 @@ theorem verify_iff (t : Totp) (chal secs : Nat) (hstep : 0 < t.step) (hsecs : t.
     show digestAt t (((secs / t.step : Nat) : Int) - 1) = _
     rw [hcast]
     exact digestAt_of_nat t _ (by omega)
-  unfold verify
-  rw [if_neg (by omega)]
-  simp only [checkAt, e1, e2, digest_eq_rfc, matchCode, Rfc.totp, prev_step_counter _ _ hstep]
-  -- from here on the two codes are opaque numbers
-  generalize Rfc.hotp t.algo t.secret (secs / t.step) t.digits.count = c1
-  generalize Rfc.hotp t.algo t.secret (secs / t.step - 1) t.digits.count = c2
-  simp only [codeMatches]
-  by_cases h1 : c1 = chal <;> by_cases h2 : c2 = chal <;> simp [h1, h2, eq_comm]
+  have h1 : digestAt t (firstCounter (counterOf secs t.step)) =
+      some (.ok (Rfc.totp t.algo t.secret t.step t.digits.count secs)) := by
+    rw [e1, digest_eq_rfc]; rfl
+  have h2 : digestAt t (secondCounter (counterOf secs t.step)) =
+      some (.ok (Rfc.totp t.algo t.secret t.step t.digits.count (secs - t.step))) := by
+    rw [e2, digest_eq_rfc]; unfold Rfc.totp; rw [prev_step_counter _ _]
+  exact verify_of_digests t chal secs _ _ (by omega) h1 h2
 
 /-- Propositional form of `verify_iff`. -/
 theorem verify_accepts_iff (t : Totp) (chal secs : Nat) (hstep : 0 < t.step)
@@ -97,7 +95,10 @@ theorem verify_accepts_iff (t : Totp) (chal secs : Nat) (hstep : 0 < t.step)
     verify t chal secs = some true ↔
       (chal = Rfc.totp t.algo t.secret t.step t.digits.count secs ∨
        chal = Rfc.totp t.algo t.secret t.step t.digits.count (secs - t.step)) := by
-  rw [verify_iff t chal secs hstep hsecs hu64]; simp
+  rw [verify_iff t chal secs hstep hsecs hu64]
+  generalize Rfc.totp t.algo t.secret t.step t.digits.count secs = c1
+  generalize Rfc.totp t.algo t.secret t.step t.digits.count (secs - t.step) = c2
+  simp
 
 /-- A code is below `10 ^ digits`; anything else is rejected. -/
 theorem verify_rejects_out_of_range (t : Totp) (chal secs : Nat) (hstep : 0 < t.step)
@@ -105,14 +106,15 @@ theorem verify_rejects_out_of_range (t : Totp) (chal secs : Nat) (hstep : 0 < t.
     verify t chal secs = some false := by
   rw [verify_iff t chal secs hstep hsecs hu64]
   have hlt : ∀ c, Rfc.hotp t.algo t.secret c t.digits.count < 10 ^ t.digits.count :=
-    fun c => Nat.mod_lt _ (Nat.pos_pow_of_pos _ (by decide))
+    fun c => Nat.mod_lt _ (Nat.pow_pos (by decide))
   have h1 := hlt (secs / t.step)
   have h2 := hlt ((secs - t.step) / t.step)
   simp only [Rfc.totp]
   generalize Rfc.hotp t.algo t.secret (secs / t.step) t.digits.count = c1 at h1 ⊢
   generalize Rfc.hotp t.algo t.secret ((secs - t.step) / t.step) t.digits.count = c2 at h2 ⊢
-  rw [decide_eq_false]
-  omega
+  have n1 : (chal == c1) = false := beq_eq_false_iff_ne.mpr (by omega)
+  have n2 : (chal == c2) = false := beq_eq_false_iff_ne.mpr (by omega)
+  rw [n1, n2]; rfl
 
 /-- The hypotheses of `verify_iff` are needed — what the code does outside them.
 `step = 0`: `secs / self.step` panics.  `secs < step` (time before the first full step): the
@@ -122,11 +124,9 @@ theorem verify_outside_domain (t : Totp) (chal secs : Nat) :
     (t.step = 0 → verify t chal secs = none) ∧
     (0 < t.step → secs < t.step →
       verify t chal secs =
-        if chal = Rfc.hotp t.algo t.secret 0 t.digits.count then some true else none) := by
+        if chal == Rfc.hotp t.algo t.secret 0 t.digits.count then some true else none) := by
   refine ⟨fun h => by simp [verify, h], fun hpos hlt => ?_⟩
   have h0 : secs / t.step = 0 := Nat.div_eq_of_lt hlt
-  unfold verify
-  rw [if_neg (by omega)]
   have e1 : digestAt t (firstCounter (counterOf secs t.step)) = digest t 0 := by
     show digestAt t ((secs / t.step : Nat) : Int) = _
     rw [h0]; exact digestAt_of_nat t 0 (by decide)
@@ -134,10 +134,7 @@ theorem verify_outside_domain (t : Totp) (chal secs : Nat) :
     apply digestAt_neg
     show ((secs / t.step : Nat) : Int) - 1 < 0
     rw [h0]; decide
-  simp only [checkAt, e1, e2, digest_eq_rfc, matchCode]
-  generalize Rfc.hotp t.algo t.secret 0 t.digits.count = c0
-  simp only [codeMatches]
-  by_cases h1 : c0 = chal <;> simp [h1, eq_comm]
+  exact verify_of_first_only t chal secs _ (by omega) (by rw [e1, digest_eq_rfc]) e2
 
 /-- RFC 2104 key pre-hash (the D7 branch): with a secret longer than the hash block the code
 is the code of the hashed secret; with a shorter one the secret is zero-filled. -/
@@ -160,9 +157,21 @@ theorem ofProto_spec (secret : List Nat) (a : Algo) (step n : Nat) (t : Totp) :
     ofProto secret a step n = some t ↔
       (t.secret = secret ∧ t.step = step ∧ t.algo = a ∧ t.digits.count = n) := by
   have ha : Algo.ofProto a = a := by cases a <;> rfl
-  obtain ⟨s, st, al, d⟩ := t
   unfold ofProto
-  cases d <;> simp [Digits.ofU8, Digits.count, ha] <;> split <;> simp_all <;> omega
+  constructor
+  · intro h
+    cases hd : Digits.ofU8 n with
+    | none => rw [hd] at h; cases h
+    | some d' =>
+      rw [hd] at h
+      have ht := Option.some.inj h
+      subst ht
+      exact ⟨rfl, rfl, ha, (digits_of_u8 n d').mp hd⟩
+  · rintro ⟨h1, h2, h3, h4⟩
+    rw [(digits_of_u8 n t.digits).mpr h4, ha]
+    obtain ⟨s, st, al, d⟩ := t
+    simp only at h1 h2 h3
+    rw [h1, h2, h3]
 
 /-! ## Non-vacuity and known answers (kernel evaluation of the very definitions above) -/
 
